@@ -49,6 +49,9 @@ Pred(ev) ==
     [] ev.op = "add"   ->
          IF ~hs[h].open \/ ~hs[h].write \/ AddCauses(hs[h].tab, BlkOf(ev)) # {} THEN [d |-> disk, hs |-> hs, ok |-> FALSE]
          ELSE LET r == HAdd(hs[h].tab, disk, BlkOf(ev)) IN [d |-> r.d, hs |-> [hs EXCEPT ![h].tab = r.m], ok |-> TRUE]
+    [] ev.op = "replace" ->
+         IF ~hs[h].open \/ ~hs[h].write \/ RepCauses(hs[h].tab, BlkOf(ev)) # {} THEN [d |-> disk, hs |-> hs, ok |-> FALSE]
+         ELSE LET r == HReplace(hs[h].tab, disk, BlkOf(ev)) IN [d |-> r.d, hs |-> [hs EXCEPT ![h].tab = r.m], ok |-> r.ok]
     [] ev.op = "remove" ->
          IF ~hs[h].open \/ ~hs[h].write \/ RemCauses(hs[h].tab, ev.t) # {} THEN [d |-> disk, hs |-> hs, ok |-> FALSE]
          ELSE LET r == HRemove(hs[h].tab, disk, ev.t) IN [d |-> r.d, hs |-> [hs EXCEPT ![h].tab = r.m], ok |-> TRUE]
